@@ -113,8 +113,9 @@ template<class T>
 static bool check_inverse(CaseOut &co, const T &a0, const T &p0, long &evals, long &threw) {
     T a = a0, p = p0; bool ex = false; T ret = 0;
     try { ret = parmcb::fp<T>::get_mult_inverse(a, p); }
-    catch (std::runtime_error *e) { ex = true; delete e; }
+    catch (std::exception *e) { ex = true; delete e; }
     catch (std::exception &) { ex = true; }
+    catch (...) { ex = true; }
     evals++;
     BigInt G = ref_gcd(BigInt(a0), BigInt(p0));
     std::string cj = J().str("function", "fp<T>::get_mult_inverse").str("T", tname<T>()).str("a", tstr(a0)).str("p", tstr(p0)).done();
